@@ -12,6 +12,11 @@ visited by
     (list members only -- that is what the property speaks about), return a fresh replacement, raise
     SkipNode}: a recording visitor applying the action at p (thorough: also every pair of positions
     where neither contains the other, for documents with <= 5 reached positions);
+    A replacement is a FRESH copy of the whole sub-tree (every node a new object): leave must receive
+    the replacement (identity), later chain members must be entered with it, and the children visited
+    must be the replacement's; `replace-pruned` additionally drops the last member of the node's first
+    list of child nodes (a structurally different replacement); the replacement is also returned from
+    the enter_* hook of a DispatchingVisitor (leave_* must get it);
   * ChainedVisitor of 2 and 3 recording visitors: identity chains, and every (editing member j,
     action, position p) (quick: for chains of 3 only the middle member edits, and only identity
     chains of 3 for the largest size class);
@@ -113,19 +118,21 @@ def _classes():
             path = self.ctx.path_of(node)
             self.log.append(("enter", path))
             self.ctx.glog.append((self.ident, "enter", path))
+            self.ctx.identity("enter", node, path, self.ident)
             act = self.edits.get(path) if not isinstance(path, str) else None
             if act == "delete":
                 return None
             if act == "skip":
                 raise SkipNode()
-            if act == "replace":
-                return self.ctx.replacement(node, path)
+            if act in ("replace", "replace-pruned"):
+                return self.ctx.replacement(node, path, prune=(act == "replace-pruned"))
             return node
 
         def leave(self, node):
             path = self.ctx.path_of(node)
             self.log.append(("leave", path))
             self.ctx.glog.append((self.ident, "leave", path))
+            self.ctx.identity("leave", node, path, self.ident)
 
     ns = {}
 
@@ -136,7 +143,10 @@ def _classes():
             path = self.ctx.path_of(node)
             self.log.append((ev, path))
             self.calls.append((name, type(node).__name__))
+            self.ctx.identity(ev, node, path, 0)
             if ev == "enter":
+                if self.edits.get(path) == "replace" and not isinstance(path, str):
+                    return self.ctx.replacement(node, path)
                 return node
             return None
 
@@ -146,8 +156,8 @@ def _classes():
         if name.startswith("enter_") or name.startswith("leave_"):
             ns[name] = mk(name)
 
-    def init(self, ctx):
-        self.ctx, self.log, self.calls = ctx, [], []
+    def init(self, ctx, edits=None):
+        self.ctx, self.log, self.calls, self.edits = ctx, [], [], (edits or {})
 
     ns["__init__"] = init
     DRecorder = type("DRecorder", (DispatchingVisitor,), ns)
@@ -174,6 +184,9 @@ class Ctx(object):
         self.by_path = {p.path: p for p in self.pos}
         self.glog = []
         self.repl = {}
+        self.fresh = set()
+        self.flags = []
+        self.keep = []
 
     def path_of(self, node):
         p = self.by_id.get(id(node))
@@ -181,14 +194,55 @@ class Ctx(object):
             return "?%s" % type(node).__name__
         return p
 
-    def replacement(self, node, path):
-        # a fresh node of the same class holding the same slot values
-        kw = {s: getattr(node, s) for s in RV.slots(node)}
-        kw["loc"] = node.loc
-        new = type(node)(**kw)
+    def replacement(self, node, path, prune=False):
+        """
+        a FRESH copy of the whole sub-tree (every node a new object, same slot values), optionally without
+        the last member of its first non-empty list of nodes (`prune`): the visitor has to go on with the
+        replacement -- enter later chain members with it, visit ITS children, leave it.
+        """
+        target = prune_target(node) if prune else None
+
+        def fresh(x, top=False):
+            kw = {}
+            for sl in RV.slots(x):
+                v = getattr(x, sl)
+                if RV._is_node(v):
+                    v = fresh(v)
+                elif isinstance(v, list):
+                    if top and target is not None and sl == target[0]:
+                        v = v[:-1]
+                    v = [fresh(e) if RV._is_node(e) else e for e in v]
+                kw[sl] = v
+            kw["loc"] = x.loc
+            return type(x)(**kw)
+
+        new = fresh(node, True)
         self.repl[path] = new
-        self.by_id[id(new)] = path
+        for P in RV.positions(new):
+            self.by_id[id(P.node)] = path + P.path
+            self.fresh.add(id(P.node))
+        self.keep.append(new)
         return new
+
+    def identity(self, ev, node, path, member):
+        """which OBJECT did the visitor hand to enter / leave at a position that was replaced (or below one)?"""
+        if isinstance(path, str):
+            return
+        for rp in self.repl:
+            if rp == path:
+                if node is not self.repl[rp]:
+                    self.flags.append(("%s-gets-original" % ev, path, member))
+            elif RV.is_strict_prefix(rp, path) and id(node) not in self.fresh:
+                self.flags.append(("visits-original-children", path, member))
+
+
+def prune_target(node):
+    """(slot, index) of the member a pruned replacement drops: the last one of the first list of non-name nodes"""
+    for sl in RV.slots(node):
+        v = getattr(node, sl)
+        if isinstance(v, list) and v and all(RV._is_node(e) and not RV._is_name(e) for e in v):
+            return (sl, len(v) - 1)
+    return None
 
 
 def _fmt(path):
@@ -305,7 +359,10 @@ def _tree_effect(ctx, res, before, edits, prefix=""):
         if any(RV.is_strict_prefix(q, p) and edits[q] in ("delete",) for q in edits):
             continue
         exp = RV.dict_without(exp, p)
-    root_replaced = edits.get(()) == "replace"
+    root_replaced = edits.get(()) in ("replace", "replace-pruned")
+    for p, a in edits.items():
+        if a == "replace-pruned":
+            exp = RV.dict_without(exp, p + (prune_target(ctx.by_path[p].node),))
     if res is None:
         return [("%sresult-none" % prefix, "visit() returned None for %s" % ctx.text)]
     got = res.to_dict()
@@ -321,7 +378,7 @@ def _tree_effect(ctx, res, before, edits, prefix=""):
         P = ctx.by_path[p]
         if any(RV.is_strict_prefix(q, p) and edits[q] in ("delete",) for q in edits):
             continue
-        if a == "replace":
+        if a in ("replace", "replace-pruned"):
             new = ctx.repl.get(p)
             if p == ():
                 holder = res
@@ -352,11 +409,28 @@ def _get_shifted(root, path, dels):
     return node
 
 
-def _expected_after(base, edits):
+def _expected_after(base, edits, ctx=None):
     exp = list(base)
     for p, a in sorted(edits.items()):
-        exp = RV.events_after_edit(exp, p, a)
+        if a == "replace-pruned":
+            gone = p + (prune_target(ctx.by_path[p].node),)
+            exp = [(e, q) for e, q in exp if not (q == gone or RV.is_strict_prefix(gone, q))]
+        else:
+            exp = RV.events_after_edit(exp, p, a)
     return exp
+
+
+def _identity_flags(ctx, prefix=""):
+    """the visitor handed the wrong OBJECT to enter / leave at or below a replaced position"""
+    out = []
+    seen = set()
+    for kind, path, member in ctx.flags:
+        if kind in seen:
+            continue
+        seen.add(kind)
+        P = ctx.by_path.get(path)
+        out.append(("%sreplace-%s" % (prefix, kind), "%s at %s (member %d) received the node that had been replaced / a child of it, not the replacement's; text %s" % (kind, _fmt(path), member, ctx.text)))
+    return out
 
 
 def check_edit(ctx, base, edits):
@@ -371,12 +445,34 @@ def check_edit(ctx, base, edits):
     out = _tree_effect(ctx, res, before, edits)
     if out:
         return out
-    exp = _expected_after(base, edits)
+    out = _identity_flags(ctx)
+    if out:
+        return out
+    exp = _expected_after(base, edits, ctx)
     if r.log != exp:
         P = ctx.by_path[sorted(edits)[0]]
         a = edits[P.path]
         return [("%s-not-local:%s" % (a, P.where()) if len(edits) == 1 else "edits-not-local:%s" % tag,
                  "edits %s: expected events %s got %s; text %s" % (_fmt_edits(edits), _fmt_events(exp, 30), _fmt_events(r.log, 30), ctx.text))]
+    return []
+
+
+def check_dispatch_edit(ctx, base, path):
+    """a DispatchingVisitor whose enter_* hook returns a fresh replacement at `path`: leave_* must get it"""
+    C = _classes()
+    edits = {path: "replace"}
+    r = C["DRecorder"](ctx, edits)
+    res, exc = _visit(r, ctx)
+    if exc:
+        return [("crash:dispatch-edit:%s" % exc.split(":")[0], "%s; %s on %s" % (exc, _fmt_edits(edits), ctx.text))]
+    out = _tree_effect(ctx, res, ctx.before, edits, prefix="dispatch-")
+    if out:
+        return out
+    out = _identity_flags(ctx, "dispatch-")
+    if out:
+        return out
+    if r.log != base:
+        return [("dispatch-replace-not-local", "expected %s got %s; %s on %s" % (_fmt_events(base, 30), _fmt_events(r.log, 30), _fmt_edits(edits), ctx.text))]
     return []
 
 
@@ -426,7 +522,9 @@ def check_chain(ctx, base, k, j, path, action):
         elif cls.startswith("chain-replace-lost"):
             cls = "chain-replacement-lost"
         return [(cls, eff[0][1] + " (" + what + ")")]
-    out = []
+    out = [(c, d + " (" + what + ")") for c, d in _identity_flags(ctx, "chain-")]
+    if out:
+        return out
     for m in members:
         exp = _expected_after(base, edits)
         got = list(m.log)
@@ -536,6 +634,8 @@ def run_config(text, flags, cfg, st=None):
     if mode == "edit":
         edits = {_path(p): a for p, a in cfg["edits"]}
         return check_edit(ctx, base, edits)
+    if mode == "dedit":
+        return check_dispatch_edit(ctx, base, _path(cfg["path"]))
     if mode == "chain":
         return check_chain(ctx, base, cfg["k"], cfg["j"], _path(cfg["path"]) if cfg["j"] is not None else None, cfg.get("action"))
     raise ValueError(mode)
@@ -592,6 +692,11 @@ def explore(dialect, n, d, i, b, st):
             cfg = {"mode": "edit", "edits": [[_jpath(P.path), a]]}
             run(cfg, lambda: check_edit(Ctx(text, flags), base, {P.path: a}))
             st.outcome((P.kind, P.parent_kind, P.slot, a))
+        if prune_target(P.node) is not None:
+            cfg = {"mode": "edit", "edits": [[_jpath(P.path), "replace-pruned"]]}
+            run(cfg, lambda: check_edit(Ctx(text, flags), base, {P.path: "replace-pruned"}))
+        cfg = {"mode": "dedit", "path": _jpath(P.path)}
+        run(cfg, lambda: check_dispatch_edit(Ctx(text, flags), base, P.path))
     if len(reach) <= b["pair_edits_max_positions"]:
         for x in range(len(reach)):
             for y in range(x + 1, len(reach)):
